@@ -31,6 +31,9 @@ CHECKS = {
  "C13": dict(level="exploration", design="§4 C13",
    text="Cross-process equivalence monitoring of every public API backed by a native routine (parse, validate, skip, search, quote, unquote, HTML escape, UTF-8 validation/correction, number parsing and formatting) between an AVX2 process and a SONIC_MODE=noavx2 process, over SIMD block sweeps (all lengths x positions) and seeded random inputs; transcripts include error positions.",
    technique="cross-process transcript digest diff (AVX2 vs SSE tables) over enumerated block sweeps and seeded inputs"),
+ "C14": dict(level="exploration", design="§4 C14",
+   text="Seeded monitoring of every search entry point (Get, GetFromString, GetCopyFromString, GetWithOptions under all 8 SearchOptions, Node.GetByPath and step-wise Get/Index from lazy, Load()ed and LoadAll()ed roots) against a reference parser with first-occurrence lookup over ~12 paths per document (existing, missing, prefix/case variants, out-of-range, wrong kind), plus every read-only view of the located node (Interface(+UseNumber) vs encoding/json on the span, MarshalJSON tokens, typed accessors, Len, iterators, ForEach, Array/Map, IndexPair) and the Preorder event stream vs a reference tree walk.",
+   technique="runtime differential monitor vs a reference parser/path evaluator and encoding/json on the located span; all SearchOptions combinations"),
  "C17": dict(level="fault_enumeration", design="§4 C17",
    text="Stream decoder: for small inputs every single cut, every pair of cuts with an interleaved empty read, EOF-with-data and a reader FAILURE at every byte position (whole and 1-byte reads) are enumerated; large inputs crossing the 4096/8192/16384-byte buffers get sampled chunkings. Oracle: encoding/json.Decoder driven by the very same reader: same value sequence, same terminal class, injected error returned by identity, logical progress (InputOffset strictly increases), and values returned earlier do not change after later Decode calls (three decoder configurations incl. CopyString+UseNumber). Stream encoder: Writer failing at every write index, short writes, repeated Encode; bytes must equal Marshal (+newline).",
    technique="fault enumeration over reader cut positions and reader/writer failure positions, with encoding/json.Decoder on the same reader as the runtime oracle"),
